@@ -15,6 +15,9 @@ open LyModel LyModel.Lyb LyModel.Tree LyModel.LybTree LyModel.Generated
 print the same bytes; the node flags, `LYD_DEFAULT` among them, are always written) -/
 def Untagged (o : POpts) : Prop := o.tagAll = false ∧ o.tagImpl = false
 
+/-- `LYD_PRINT_WITHSIBLINGS` (`lyd_print_all`) -/
+def WithSiblings (o : POpts) : Prop := o.withSiblings = true
+
 
 /-- **LYB tree round trip, every with-defaults mode, the code as it is** (the true part of the full statement, which
 `lyb_tree_roundtrip_tagged_fails` refutes).  For every chunk-size parameter set `P` (side conditions `P.Ok`), every schema
@@ -22,7 +25,8 @@ view `S` (any sibling sets, any names — the hash collisions are whatever the r
 `t` whose nodes fit the schema (`WfForest`: leaf / leaf-list nodes carry the canonical form of a value of their type — any
 of the `Val` types or `empty` —, every node may carry metadata instances of the annotations of `S` (`AnnotsOk`: the table is
 unambiguous; values canonical for the annotation's type), inner nodes are containers or list instances, keyed or key-less, in any number and order)
-and EVERY print option: **if the printer succeeds** (`printLyb … = some img`: `lyb_hash_siblings` resolves every sibling
+and EVERY print option (with or without `LYD_PRINT_WITHSIBLINGS`: `printedForest` is the whole forest or its first tree):
+**if the printer succeeds** (`printLyb … = some img`: `lyb_hash_siblings` resolves every sibling
 set that occurs — finding F27 is its failure — and no inner-chunk counter overflows), the parser run on the image returns
 `t` with the same nodes, order, canonical values and flags, where exactly the nodes the printer tagged (`wdTagged`:
 `LYD_DEFAULT` under ALL_TAG / IMPL_TAG, or a default-valued term node under ALL_TAG) carry the
@@ -31,33 +35,50 @@ the theorem (`cost_le_image`: every node costs the printer at least five payload
 theorem lyb_tree_roundtrip_tagged_partial (P : Params) (hP : P.Ok) (o : POpts) (S : LSchema) (hann : AnnotsOk S)
     (hname : S.modName ≠ []) (hrev : unpackRev (packRev S.rev) = S.rev)
     (t : List DNode) (hwf : WfForest S t) (img : Bytes) (hp : printLyb P o S t = some img) :
-    parseLyb P S img = some (t.map (viewNode o S)) :=
-  doc_rt P hP o S hann hname hrev t hwf img hp _ (by have := cost_le_image P hP o S t img hp; omega)
+    parseLyb P S img = some ((printedForest o t).map (viewNode o S)) := by
+  rw [printLyb_eq] at hp
+  have hwf' : WfForest S (printedForest o t) := by
+    simp only [printedForest]; split
+    · exact hwf
+    · exact wfForest_take S t hwf
+  exact doc_rt P hP o S hann hname hrev _ hwf' img hp _ (by have := cost_le_image P hP o S _ img hp; omega)
 
 /-- **LYB tree round trip** (untagged modes: explicit / trim / all): `parse (print t) = t`. -/
-theorem lyb_tree_roundtrip (P : Params) (hP : P.Ok) (o : POpts) (ho : Untagged o) (S : LSchema) (hann : AnnotsOk S)
+theorem lyb_tree_roundtrip (P : Params) (hP : P.Ok) (o : POpts) (ho : Untagged o) (hs : WithSiblings o) (S : LSchema) (hann : AnnotsOk S)
     (hname : S.modName ≠ []) (hrev : unpackRev (packRev S.rev) = S.rev)
     (t : List DNode) (hwf : WfForest S t) (img : Bytes) (hp : printLyb P o S t = some img) :
     parseLyb P S img = some t := by
   have := lyb_tree_roundtrip_tagged_partial P hP o S hann hname hrev t hwf img hp
-  rwa [viewL_id o S (fun n => untagged o S n (Or.inl ho))] at this
+  rwa [viewL_id o S (fun n => untagged o S n (Or.inl ho)), printedForest, if_pos (show o.withSiblings = true from hs)] at this
+
+/-- **LYB tree round trip, single-tree mode** (`lyd_print_tree`, no `LYD_PRINT_WITHSIBLINGS`; untagged with-defaults modes):
+the image holds exactly the first top-level node of the forest with its whole subtree — and of a top-level list / leaf-list
+exactly that one instance, the `break`s in `lyb_print_node_list` / `lyb_print_node_leaflist` (finding F470 was their absence) —
+and parsing it gives that tree back. -/
+theorem lyb_tree_roundtrip_single (P : Params) (hP : P.Ok) (o : POpts) (ho : Untagged o) (hs : o.withSiblings = false)
+    (S : LSchema) (hann : AnnotsOk S) (hname : S.modName ≠ []) (hrev : unpackRev (packRev S.rev) = S.rev)
+    (t : List DNode) (hwf : WfForest S t) (img : Bytes) (hp : printLyb P o S t = some img) :
+    parseLyb P S img = some (t.take 1) := by
+  have := lyb_tree_roundtrip_tagged_partial P hP o S hann hname hrev t hwf img hp
+  rw [viewL_id o S (fun n => untagged o S n (Or.inl ho)), printedForest] at this
+  simpa [hs] using this
 
 /-- **… with the repair of finding F330** (`fixes/F330.diff`: `lyb_print_metadata` without the with-defaults block — the
 extractor then sets `lybWdAnnot = false`, the default of `POpts.wdAnnot`): `parse (print t) = t` under EVERY
 with-defaults mode, the tagged ones included: the flags carry the default-ness exactly. -/
-theorem lyb_tree_roundtrip_tagged_fixed (P : Params) (hP : P.Ok) (o : POpts) (hfix : o.wdAnnot = false) (S : LSchema)
+theorem lyb_tree_roundtrip_tagged_fixed (P : Params) (hP : P.Ok) (o : POpts) (hfix : o.wdAnnot = false) (hs : WithSiblings o) (S : LSchema)
     (hann : AnnotsOk S) (hname : S.modName ≠ []) (hrev : unpackRev (packRev S.rev) = S.rev)
     (t : List DNode) (hwf : WfForest S t) (img : Bytes) (hp : printLyb P o S t = some img) :
     parseLyb P S img = some t := by
   have := lyb_tree_roundtrip_tagged_partial P hP o S hann hname hrev t hwf img hp
-  rwa [viewL_id o S (fun n => untagged o S n (Or.inr hfix))] at this
+  rwa [viewL_id o S (fun n => untagged o S n (Or.inr hfix)), printedForest, if_pos (show o.withSiblings = true from hs)] at this
 
 /-- the same at the constants of the source tree -/
-theorem lyb_tree_roundtrip_gen (o : POpts) (ho : Untagged o) (S : LSchema) (hann : AnnotsOk S) (hname : S.modName ≠ [])
+theorem lyb_tree_roundtrip_gen (o : POpts) (ho : Untagged o) (hs : WithSiblings o) (S : LSchema) (hann : AnnotsOk S) (hname : S.modName ≠ [])
     (hrev : unpackRev (packRev S.rev) = S.rev) (t : List DNode) (hwf : WfForest S t) (img : Bytes)
     (hp : printLyb Params.gen o S t = some img) :
     parseLyb Params.gen S img = some t :=
-  lyb_tree_roundtrip Params.gen C01Lyb.params_gen_ok o ho S hann hname hrev t hwf img hp
+  lyb_tree_roundtrip Params.gen C01Lyb.params_gen_ok o ho hs S hann hname hrev t hwf img hp
 
 /-- the revision hypothesis holds for a module without revision and (by `lyb_revision_pack_roundtrip`) for every date
 2000-01-01 … 2127-12-31; outside that range the format cannot hold the year (finding F70) -/
@@ -144,7 +165,7 @@ the parse of the image -/
 theorem exPrint : printLyb Params.gen {} exS exT = some exImg := by decide
 
 example : parseLyb Params.gen exS exImg = some exT :=
-  lyb_tree_roundtrip_gen {} ⟨rfl, rfl⟩ exS (by intro a h; cases h) (by decide) (by decide) exT
+  lyb_tree_roundtrip_gen {} ⟨rfl, rfl⟩ rfl exS (by intro a h; cases h) (by decide) (by decide) exT
     (by
       refine ⟨⟨rfl, rfl, ⟨⟨rfl, ⟨trivial, .bool true, rfl, rfl⟩, (by intro m h; cases h)⟩, ⟨rfl, ⟨by simp [Val.Ty.WF, Val.PartsWF], .num 7, rfl, rfl⟩, (by intro m h; cases h)⟩, ⟨rfl, ⟨by simp [Val.Ty.WF, Val.PartsWF], .num 255, rfl, rfl⟩, (by intro m h; cases h)⟩, trivial⟩, (by intro m h; cases h)⟩,
     ⟨rfl, rfl, (by intro m h; cases h)⟩, trivial⟩)
@@ -173,7 +194,7 @@ example : ∃ img, printLyb Params.gen {} exSm exTm = some img ∧ parseLyb Para
   have h : (printLyb Params.gen {} exSm exTm).isSome = true := by decide
   obtain ⟨img, himg⟩ := Option.isSome_iff_exists.mp h
   have hmem : exAnnot ∈ exSm.annotsEff := by simp [exSm, LSchema.annotsEff, exS]
-  refine ⟨img, himg, lyb_tree_roundtrip_gen {} ⟨rfl, rfl⟩ exSm exSm_ok (by decide) (by decide) exTm ?_ img himg⟩
+  refine ⟨img, himg, lyb_tree_roundtrip_gen {} ⟨rfl, rfl⟩ rfl exSm exSm_ok (by decide) (by decide) exTm ?_ img himg⟩
   refine ⟨⟨rfl, rfl, ⟨⟨rfl, ⟨trivial, .bool true, rfl, rfl⟩, ?_⟩, trivial⟩, ?_⟩, trivial⟩
   · intro m hm
     simp only [List.mem_cons, List.not_mem_nil, or_false] at hm
@@ -182,6 +203,17 @@ example : ∃ img, printLyb Params.gen {} exSm exTm = some img ∧ parseLyb Para
     simp only [List.mem_singleton] at hm
     subst hm
     exact ⟨exAnnot, hmem, rfl, rfl⟩
+
+set_option maxRecDepth 100000 in
+/-- non-vacuity (audit), single-tree mode: of `exT` (container `c`, leaf `e`) only the container tree is in the image -/
+example : ∃ img, printLyb Params.gen { withSiblings := false } exS exT = some img ∧
+    parseLyb Params.gen exS img = some (exT.take 1) ∧ (exT.take 1).length = 1 ∧ exT.length = 2 := by
+  have h : (printLyb Params.gen { withSiblings := false } exS exT).isSome = true := by decide
+  obtain ⟨img, himg⟩ := Option.isSome_iff_exists.mp h
+  refine ⟨img, himg, lyb_tree_roundtrip_single Params.gen C01Lyb.params_gen_ok _ ⟨rfl, rfl⟩ rfl exS (by intro a h; cases h)
+    (by decide) (by decide) exT ?_ img himg, rfl, rfl⟩
+  exact ⟨⟨rfl, rfl, ⟨⟨rfl, ⟨trivial, .bool true, rfl, rfl⟩, (by intro m h; cases h)⟩, ⟨rfl, ⟨by simp [Val.Ty.WF, Val.PartsWF], .num 7, rfl, rfl⟩, (by intro m h; cases h)⟩, ⟨rfl, ⟨by simp [Val.Ty.WF, Val.PartsWF], .num 255, rfl, rfl⟩, (by intro m h; cases h)⟩, trivial⟩, (by intro m h; cases h)⟩,
+    ⟨rfl, rfl, (by intro m h; cases h)⟩, trivial⟩
 
 /-! ## outside the hypotheses -/
 
